@@ -444,13 +444,18 @@ class Behavior(_IModel):
         epsP_e_pg = zOld_e_pg[..., P]
         pOld_e_pg = zOld_e_pg[..., A][..., 0]
         sigTr_e_pg = C_e_pg @ (eps6_e_pg - epsP_e_pg)
+        # f = phi(sig) - sigma_y - R with phi(0) = 0, so the surface itself gives its yield
+        # stress; `scale` is only a representative stress for the tolerances
+        sigma_y = -float(
+            np.max(self.__yield.f(FeArray.zeros(1, 1, 6), FeArray.zeros(1, 1)))
+        )
 
         res = _spectral.Solve(
             self.__eigen,
             sigTr_e_pg,
             pOld_e_pg,
             self.__hardening,
-            self.__yield.scale,
+            sigma_y,
             self.__rate,
             dt,
             self._tol,
